@@ -248,7 +248,7 @@ type c35Viol struct {
 	Detail string
 	Query  string
 	Other  string
-	Rank   [2]int // (length in tokens / family order, ordinal) — smaller is simpler
+	Rank   [2]int // (family order, ordinal); cases are ranked by number of words first — smaller is simpler
 }
 
 type c35Violations struct {
@@ -262,6 +262,14 @@ func (v *c35Violations) add(x c35Viol) {
 	defer v.mu.Unlock()
 	v.count[x.Key]++
 	cur, ok := v.best[x.Key]
+	if ok {
+		if a, b := len(strings.Fields(x.Query)), len(strings.Fields(cur.Query)); a != b {
+			if a < b {
+				v.best[x.Key] = x
+			}
+			return
+		}
+	}
 	if !ok || x.Rank[0] < cur.Rank[0] || (x.Rank[0] == cur.Rank[0] && (x.Rank[1] < cur.Rank[1] || (x.Rank[1] == cur.Rank[1] && x.Query < cur.Query))) {
 		v.best[x.Key] = x
 	}
@@ -413,7 +421,7 @@ func c35Render(toks []c35Tok, slot string, modes []int) string {
 func TestVerifC35(t *testing.T) {
 	rep := vh.New(t, "C35")
 	defer rep.Finish()
-	rep.Rule = "case = one query text given to the real sql.Parse under recover: (a) every sequence of <= L tokens over the 26-token alphabet joined by single spaces (each sequence containing SELECT/SeLeCt is also compared with its lower-case-select twin), (b) every valid template x identifier slot x 3^k keyword casings compared with the all-lower-case rendering. Outcome signature = panic site | error text | structural shape of the parsed query (+ case-diff field). Non-trivial = Parse returned a query (not an error) or panicked."
+	rep.Rule = "case = one query text given to the real sql.Parse under recover: (a) every sequence of <= L tokens over the 26-token alphabet joined by single spaces (each sequence containing SELECT/SeLeCt is also compared with its lower-case-select twin), (b) every valid template x identifier slot x 3^k keyword casings compared with the all-lower-case rendering. Outcome signature = panic site | error text | structural shape of the parsed query (+ case-diff field). Non-trivial = Parse returned a query (not an error) or panicked. Server part (package server): the same alphabet up to 3 tokens (+ 4-token select/explain sequences + probes) x {simple Query, extended Parse} through the real Server.handleConnection, and one real server process."
 	rep.Assumptions = []string{
 		"ASCII keywords = reserved words (select from where and join left on group by order by asc desc limit tail last within scan full explain show topics partitions describe as between); function and column names are not case-varied",
 		"SelectColumn.Raw (verbatim source text of a select item, never read by the server) is compared ASCII-case-insensitively",
@@ -435,7 +443,7 @@ func TestVerifC35(t *testing.T) {
 	}
 
 	deadline := vh.Deadline()
-	maxLen := 6
+	maxLen := 5
 	fullLen := 5 // always completed, whatever the deadline
 	if vh.Thorough() {
 		maxLen = 7
@@ -449,7 +457,11 @@ func TestVerifC35(t *testing.T) {
 
 	// ---- (b) templates first (small, and the part that exercises valid queries) ----
 	var nTemplateCases int64
+	shardI, shardN := vh.Shard()
 	for ti, spec := range c35Templates {
+		if shardI != 0 {
+			break
+		}
 		toks := c35T(spec)
 		k := 0
 		for _, tk := range toks {
@@ -486,7 +498,7 @@ func TestVerifC35(t *testing.T) {
 				if v == n-1 && si == 0 && rep.WantSample() && ti%5 == 0 {
 					rep.Sample(map[string]any{"family": "template-casing", "query": q, "baseline": base, "outcome": sig})
 				}
-				if v == 0 && slot == "" && res.Err != nil {
+				if v == 0 && si == 0 && (res.Err != nil || res.Panicked) {
 					t.Fatalf("HARNESS-ERROR template %q is not a valid query: %v", base, res.Err)
 				}
 			}
@@ -497,7 +509,6 @@ func TestVerifC35(t *testing.T) {
 	// ---- (a) token sequences, shorter first; each length is split over workers by its first two tokens ----
 	K := len(c35Tokens)
 	workers := runtime.GOMAXPROCS(0)
-	shardI, shardN := vh.Shard()
 	completed := 0
 	for L := 0; L <= maxLen; L++ {
 		if L > fullLen && time.Now().After(deadline) {
